@@ -382,6 +382,19 @@ func nsWalkRules(c *Ctx, prop string) (*report.Result, error) {
 
 	if prop == "C12" {
 		checkTranslateOrder(c, m, res)
+		res.RuleDoc["O12.8"] = "the per-RPC method gate of the namespace translator admits every method of both services whose request or response type reaches a namespace-name site: matchMethod returns true on every path, or excludes only methods named by the constant keys of a package-level table, each resolved against the method lists of both services (a short name may belong to both), and translatorImpl.MatchMethod delegates to it"
+		siteCount := map[string]int{}
+		for _, r := range roots {
+			f := walkNamespaceSites(m, types.NewPointer(r.Type), tabs.nsNames)
+			n := len(f.nsCovered) + len(f.nsUncovered) + len(f.nsInfoBad)
+			for k := range f.blobSites {
+				if cls, ok := dataBlobClass[k]; !ok || cls[0] == "events" {
+					n++
+				}
+			}
+			siteCount[r.Name()] = n
+		}
+		checkNamespaceMethodGate(c, res, "O12.8", m, siteCount)
 	}
 
 	res.Explanation = fmt.Sprintf("Type-graph walk (mirroring github.com/keilerkonzept/visit as driven by interceptor.visitNamespace) from %d service message roots (+%d extra roots) of the pinned go.temporal.io/api and go.temporal.io/server/api: %d type paths enumerated exhaustively (recursion cut when a named struct re-appears on the path). An oracle independent of the repo's tables (field name contains 'namespace', string-like type, not an id; NamespaceInfo.Name; reviewed DataBlob classification) names the sites that carry a namespace; the repo's recognisers (namespaceFieldNames, dataBlobFieldNames, the skip list, the type switches of visitDataBlobs / isSkippableForNamespaceTranslation) are read from the current source and every site must be recognised; the skip list must not contain an event type whose attributes reach a site; the visit callbacks must not cut the walk outside the reviewed classes. Decides the structural completeness of the walker, not the run-time behaviour of visit.Assign or the serializer.",
